@@ -65,6 +65,20 @@ CHECKS = {
         note="K=2 tasks; await points are the harness doubles'; file-system loaders' executor path is covered by C13/C14 with asyncio.run",
         ref="DESIGN.md section 6 C03",
     ),
+    "C06": dict(
+        engine="LiquidLimits",
+        technique="TLA+ model of the limited-buffer chain (LiquidLimits.tla) checked by TLC; consumption measures of every program computed by "
+                  "TLC from the reference semantics (LiquidSem!Measure); library rendered under limits around the measures, band oracle",
+        text="TLC checks ChainWithinLimit/ReturnedWithinLimit/Complete on the buffer mechanism for all operation sequences (and refutes them "
+             "with the carry dropped); for every program of the limits focuses (multi-byte and CR/LF text through nested captures, suppressed "
+             "blank blocks, partials, macros; loop nests <=3 deep over for/tablerow/include-for/render-for/macros/partials with break; cyclic "
+             "include/render/extends graphs) the library runs under output and loop limits {lower-1, lower, lower+1, upper-1, upper, upper+1, "
+             "huge}: lower>limit must raise the matching error, upper<=limit must give exactly the unlimited output, cycles must end in "
+             "ContextDepthError/TemplateInheritanceError, and the namespace score after a success is within its limit",
+        note="band oracle (either outcome accepted between the measures); namespace limit judged only through scores observed on a caller-owned "
+             "context; block.super buffers are outside this focus",
+        ref="DESIGN.md section 6 C06",
+    ),
     "C07": dict(
         engine="LiquidSem",
         technique="TLC invariant RenderIsolated (two-way non-interference) on the reference + S->C replay of the scopes and lambda focuses "
